@@ -3,6 +3,7 @@ package mc
 import (
 	"crypto/sha256"
 	"fmt"
+	"runtime/debug"
 	"strings"
 )
 
@@ -107,7 +108,7 @@ func BFSCollect(c *Ctx, fam Family, maxStates int, onState func(*Node)) {
 			}
 			res := make([]StepResult, len(tasks))
 			ok := parallelFor(c, len(tasks), func(i int) {
-				res[i] = fam.Step(tasks[i].n, tasks[i].op)
+				res[i] = safeStep(c, fam, tasks[i].n, tasks[i].op)
 			})
 			if !ok {
 				c.Cov.NotExhaustive(fmt.Sprintf("deadline reached at BFS depth %d", depth))
@@ -180,4 +181,27 @@ func BFSCollect(c *Ctx, fam Family, maxStates int, onState func(*Node)) {
 		c.Cov.SetExtra("abstract_states", len(abstract))
 	}
 	c.Cov.Sample(histStr(root.Hist))
+}
+
+// CaseMaker is implemented by families that can describe the replayable case of a history.
+type CaseMaker interface {
+	CaseOf(hist []Op) (Case, string)
+}
+
+// safeStep is fam.Step with a net: a panic inside the library (in an operation of the history or in
+// one of the oracle's queries) ends the path and is reported as a violation of the check's property
+// with the history as its replayable case.
+func safeStep(c *Ctx, fam Family, n *Node, op Op) (res StepResult) {
+	defer func() {
+		if r := recover(); r != nil {
+			stack := debug.Stack()
+			hist := append(append([]Op(nil), n.Hist...), op)
+			cs, id := mkCase("panic", map[string]any{"history": histStr(hist), "stack": string(stack)}), histStr(hist)
+			if cm, ok := fam.(CaseMaker); ok {
+				cs, id = cm.CaseOf(hist)
+			}
+			res = StepResult{Terminal: true, Viol: []Violation{panicViolation(c.Prop, r, stack, cs, id)}}
+		}
+	}()
+	return fam.Step(n, op)
 }
